@@ -250,6 +250,23 @@ def probe(seed):
                 bad.append([kind, how, base_kind, lim, x, delivered, err])
             if not rejected and (not got_x or err is not None):
                 bad.append([kind, how, base_kind, lim, x, delivered, err])
+    # callables that are generator / coroutine functions without being plain functions: functools.partial objects
+    import functools
+    def gen_fn(k, xs):
+        for x in xs: yield x
+    async def co_fn(k, x): return x
+    pg = deal.post(lambda r: r is not None)(functools.partial(gen_fn, 1))
+    pc = deal.post(lambda r: r is not None)(functools.partial(co_fn, 1))
+    delivered, err = [], None
+    try:
+        for v in pg([10, 20, None, 40]): delivered.append(v)
+    except deal.PostContractError: err = "PostContractError"
+    except BaseException as e: err = type(e).__name__
+    if delivered != [10, 20] or err != "PostContractError": bad.append(["partial(generator)", "post", "-", 0, 0, delivered, err])
+    try: r = asyncio.run(pc(None)); err = None
+    except deal.PostContractError: err = "PostContractError"
+    except BaseException as e: err = type(e).__name__
+    if err != "PostContractError": bad.append(["partial(coroutine)", "post", "-", 0, 0, [], err])
     return bad
 """
 
